@@ -254,13 +254,14 @@ def _work(job):
             for cl, d in r:
                 if cl.startswith(pid + ':'):
                     rab = ring_after_branch(t)
+                    cpab = centre_partner_after_branch(t) if rab else False
                     # capped per (clause, input class) so that a recorded class can never crowd out a new violation
-                    if sum(1 for b in bad if b['clause'] == cl and b['features']['ring_after_branch'] == rab) >= 3:
+                    if sum(1 for b in bad if b['clause'] == cl and b['features']['ring_after_branch'] == rab
+                           and b['features']['centre_partner_after_branch'] == cpab) >= 3:
                         continue
                     bad.append({'clause': cl, 'detail': d, 'input': {'smiles': t, 'table': table if isinstance(table, str)
                                                                       else 'relaxed'},
-                                'features': {'ring_after_branch': rab,
-                                             'centre_partner_after_branch': centre_partner_after_branch(t)}})
+                                'features': {'ring_after_branch': rab, 'centre_partner_after_branch': cpab}})
     return n, len(nt), bad
 
 
